@@ -33,6 +33,8 @@ def bounds(tier):
 EXTRA_LEAVES = [
     {"k": "RQS", "knots": 3, "interval": [1, 5]}, {"k": "RQS", "knots": 3, "interval": [-5, -1]},
     {"k": "RQS", "knots": 1, "interval": 2}, {"k": "LeakyTanh", "shape": [], "max_val": 3},
+    {"k": "Planar", "dim": 2, "cond": None, "slope": None, "w0": True}, {"k": "Planar", "dim": 2, "cond": None, "slope": 0.1, "w0": True},
+    {"k": "Planar", "dim": 2, "cond": 2, "slope": 0.1, "w0": True}, {"k": "Planar", "dim": 3, "cond": 2, "slope": None, "w0": True},
     {"k": "RQS", "knots": 5, "interval": [2, 6]}, {"k": "RQS", "knots": 8, "interval": [2, 6]}, {"k": "RQS", "knots": 8, "interval": [-6, -2]},
     {"k": "RQS", "knots": 8, "interval": [0.5, 4]}, {"k": "RQS", "knots": 8, "interval": 3},
     {"k": "LeakyTanh", "shape": [2], "max_val": 1}, {"k": "Flip", "shape": [2]}, {"k": "Identity", "shape": []},
